@@ -20,6 +20,9 @@ def _exprs_to_axes(exprs):
     for root in exprs:
         for expr in root.nodes():
             if isinstance(expr, stage3.Axis):
+                if expr.name.startswith("unnamed.") or expr.name.startswith("."):
+                    # Unnamed axes (numbers in the expression) and anonymous ellipsis axes have no name to report
+                    continue
                 tokens = expr.name.split(".")
                 values[tokens[0]].append((tuple(int(t) for t in tokens[1:]), expr.value))
 
